@@ -80,3 +80,26 @@ GETTER_CONTRACT(tls_record_get_handshake_certificate_verify, 1);
 /* Finished.verify_data is 12 bytes (TLCP / TLS 1.2) or 32 bytes */
 GETTER_CONTRACT(tls_record_get_handshake_finished, (*outlen == 12 || *outlen == 32) && *out != NULL);
 #endif
+
+#ifdef CONTRACT_TLS_HELLO
+#ifdef VERIF_CBMC
+int __CPROVER_uninterpreted_cipher_known(int);
+#endif
+/* src/tls_trace.c table lookup (assumed: a pure function of its argument) */
+const char *tls_cipher_suite_name(int cipher)
+ASSIGNS()
+ENSURES((RET != NULL) == (__CPROVER_uninterpreted_cipher_known(cipher) != 0))
+;
+/* ServerHello: every output is a slice of the record; the session id fits the 32-byte field callers copy it into */
+int tls_record_get_handshake_server_hello(const uint8_t *record, int *protocol, const uint8_t **random, const uint8_t **session_id, size_t *session_id_len,
+	int *cipher_suite, const uint8_t **exts, size_t *exts_len)
+REQUIRES(record == NULL || REC_REQ(record))
+REQUIRES((protocol == NULL || WR_OK(protocol, sizeof(int))) && (random == NULL || WR_OK(random, sizeof(*random))) && (session_id == NULL || WR_OK(session_id, sizeof(*session_id)))
+	&& (session_id_len == NULL || WR_OK(session_id_len, sizeof(size_t))) && (cipher_suite == NULL || WR_OK(cipher_suite, sizeof(int))) && (exts == NULL || WR_OK(exts, sizeof(*exts))) && (exts_len == NULL || WR_OK(exts_len, sizeof(size_t))))
+ASSIGNS(protocol != NULL: *protocol; random != NULL: *random; session_id != NULL: *session_id; session_id_len != NULL: *session_id_len; cipher_suite != NULL: *cipher_suite; exts != NULL: *exts; exts_len != NULL: *exts_len)
+ENSURES(RET == 1 || RET == -1)
+ENSURES(RET == 1 IMPLIES (REC_SLICE(*random, 32, record) && (*session_id == NULL ? *session_id_len == 0 : (*session_id_len >= 1 && *session_id_len <= 32 && REC_SLICE(*session_id, *session_id_len, record)))
+	&& (*exts == NULL ? *exts_len == 0 : REC_SLICE(*exts, *exts_len, record))
+	&& __CPROVER_uninterpreted_cipher_known(*cipher_suite) != 0 && *protocol >= ((((int)record[1]) << 8) | record[2])))
+;
+#endif
